@@ -406,6 +406,16 @@ where
             let root = &commitment.root;
             let t = calculate_t::<F>(vk.sec_param(), vk.distance(), n_ext_cols)?;
 
+            // The opened vectors are rows of the committed matrix: `n_cols` entries each.
+            if proof.opening.v.len() != n_cols {
+                return Err(Error::InvalidCommitment);
+            }
+            if let Some(well_formedness) = &proof.well_formedness {
+                if well_formedness.len() != n_cols {
+                    return Err(Error::InvalidCommitment);
+                }
+            }
+
             sponge.absorb(&to_bytes!(&commitment.root).map_err(|_| Error::TranscriptError)?);
 
             let out = if vk.check_well_formedness() {
